@@ -3,6 +3,7 @@ package main
 // C13 — parsing depends only on the text: not on chunking, not on history.
 
 import (
+	"go/ast"
 	"fmt"
 	"go/token"
 	"go/types"
@@ -367,6 +368,7 @@ func checkC13(c *Ctx) {
 	}
 	c.checkParserStopOrder("C13-STOP")
 	c.checkLexerTokenOrder("C13-ORDER")
+	c.checkCommentAutomaton("C13-CMT")
 	// the end-of-text flush feeds the rune that ends every pending construct it claims to end
 	if f := c.fn("Lexer.flushAtEnd"); f != nil {
 		lexNext := c.fn("Lexer.LexNextRune")
@@ -966,4 +968,67 @@ func (c *Ctx) checkIteratorStopsYielding(rule string) {
 	})
 	c.check(okField, rule, "Parser.ParsingIter", "paused routines get the guarded yield", body.Pos(),
 		"Parser.yield is set to the guarding wrapper", "Parser.yield is the consumer's raw yield function: routines that were paused call it while they unwind after the consumer has gone")
+}
+
+// checkCommentAutomaton: inside a block comment, after an asterisk, another
+// asterisk must keep the lexer in the "asterisk seen" state (the closing
+// delimiter of `**/` starts at the second asterisk).
+func (c *Ctx) checkCommentAutomaton(rule string) {
+	fd := c.funcDecl("Lexer.LexNextRune")
+	if fd == nil {
+		c.undecided(rule, "Lexer.LexNextRune", "block comment states", token.NoPos, "function not found")
+		return
+	}
+	found := false
+	okStar := false
+	ast.Inspect(fd.Body, func(n ast.Node) bool {
+		cc, ok := n.(*ast.CaseClause)
+		if !ok || len(cc.List) != 1 {
+			return true
+		}
+		id, ok := cc.List[0].(*ast.Ident)
+		if !ok || id.Name != "LexerCommentBlockAsterisk" {
+			return true
+		}
+		found = true
+		// does a path for r == '*' leave the clause without setting the state back to LexerCommentBlock?
+		for _, st := range cc.Body {
+			is, ok := st.(*ast.IfStmt)
+			if !ok {
+				continue
+			}
+			be, ok := is.Cond.(*ast.BinaryExpr)
+			if !ok || be.Op != token.EQL {
+				continue
+			}
+			tv := c.Zygo.TypesInfo.Types[be.Y]
+			if tv.Value == nil || tv.Value.String() != "42" { // '*'
+				continue
+			}
+			returns := false
+			resets := false
+			ast.Inspect(is.Body, func(m ast.Node) bool {
+				switch x := m.(type) {
+				case *ast.ReturnStmt:
+					returns = true
+				case *ast.AssignStmt:
+					if len(x.Lhs) == 1 && exprShort(x.Lhs[0]) == "lexer.state" && exprShort(x.Rhs[0]) != "LexerCommentBlockAsterisk" {
+						resets = true
+					}
+				}
+				return true
+			})
+			if returns && !resets {
+				okStar = true
+			}
+		}
+		return false
+	})
+	if !found {
+		c.undecided(rule, "Lexer.LexNextRune", "block comment states", fd.Pos(), "no `asterisk seen` state found in the lexer's state switch")
+		return
+	}
+	c.check(okStar, rule, "Lexer.LexNextRune", "asterisk after asterisk keeps waiting for the slash", fd.Pos(),
+		"inside a block comment a run of asterisks stays in the `asterisk seen` state",
+		"after an asterisk inside a block comment another asterisk sends the lexer back to the plain comment state: `**/` does not close the comment and the rest of the text is swallowed")
 }
